@@ -12,7 +12,7 @@ func init() {
 	register(&Rule{ID: "C01.R6", Min: 7,
 		Text: "the sign the rounding sees is the result's sign: after a call reaching Rounder.Round on the destination, d.Negative is only ever re-stored with the Negative field of the very operand that was rounded (directed modes decide by that sign)",
 		Run:  ruleSignAfterRounding})
-	register(&Rule{ID: "C04.R6", Min: 4,
+	register(&Rule{ID: "C04.R6", Min: 2,
 		Text: "system-limit flags are guarded by the package limits: every return of a SystemOverflow/SystemUnderflow constant is under a comparison with the package constants ±MaxExponent, never with a context field",
 		Run:  ruleSystemLimitGuards})
 	register(&Rule{ID: "C09.R5", Min: 1,
@@ -123,30 +123,51 @@ func ruleSystemLimitGuards(w *World, r *RuleResult) {
 			key := fmt.Sprintf("%s | system-limit return #%d", name, n)
 			okGuard := false
 			var seen, notStrict []string
-			for _, dg := range w.guardsAtDeep(f, b) {
-				g := dg.Guard
-				bo, isB := g.Cond.(*ssa.BinOp)
-				if !isB {
-					continue
+			// the facts at the return, as alternatives (the return may sit under `A || B`)
+			var alts [][]DeepGuard
+			if ga := guardAlternatives(b); len(ga) > 1 {
+				for _, alt := range ga {
+					var dgs []DeepGuard
+					for _, g := range alt {
+						dgs = append(dgs, DeepGuard{f, g, nil})
+					}
+					alts = append(alts, dgs)
 				}
-				for oi, o := range []ssa.Value{bo.X, bo.Y} {
-					if k, isK := o.(*ssa.Const); isK && (ci(k) == maxE || ci(k) == -maxE) {
-						okGuard = true
-						// the limit itself is inside the range: the test must be strict on the limit's side
-						op := bo.Op
-						if oi == 0 { // const <op> value  ==  value <flipped op> const
-							op = map[token.Token]token.Token{token.LSS: token.GTR, token.GTR: token.LSS, token.LEQ: token.GEQ, token.GEQ: token.LEQ}[op]
-						}
-						// only the guard on whose "beyond the limit" side this return sits
-						loose := (ci(k) == maxE && ((op == token.GEQ && g.Val) || (op == token.LSS && !g.Val))) ||
-							(ci(k) == -maxE && ((op == token.LEQ && g.Val) || (op == token.GTR && !g.Val)))
-						if loose {
-							notStrict = append(notStrict, w.exprOf(dg.Fn, g.Cond).String())
+			} else {
+				alts = [][]DeepGuard{w.guardsAtDeep(f, b)}
+			}
+			okAll := true
+			for _, alt := range alts {
+				okGuard = false
+				for _, dg := range alt {
+					g := dg.Guard
+					bo, isB := g.Cond.(*ssa.BinOp)
+					if !isB {
+						continue
+					}
+					for oi, o := range []ssa.Value{bo.X, bo.Y} {
+						if k, isK := o.(*ssa.Const); isK && (ci(k) == maxE || ci(k) == -maxE) {
+							okGuard = true
+							// the limit itself is inside the range: the test must be strict on the limit's side
+							op := bo.Op
+							if oi == 0 { // const <op> value  ==  value <flipped op> const
+								op = map[token.Token]token.Token{token.LSS: token.GTR, token.GTR: token.LSS, token.LEQ: token.GEQ, token.GEQ: token.LEQ}[op]
+							}
+							// only the guard on whose "beyond the limit" side this return sits
+							loose := (ci(k) == maxE && ((op == token.GEQ && g.Val) || (op == token.LSS && !g.Val))) ||
+								(ci(k) == -maxE && ((op == token.LEQ && g.Val) || (op == token.GTR && !g.Val)))
+							if loose {
+								notStrict = append(notStrict, w.exprOf(dg.Fn, g.Cond).String())
+							}
 						}
 					}
+					seen = append(seen, w.exprOf(dg.Fn, g.Cond).String())
 				}
-				seen = append(seen, w.exprOf(dg.Fn, g.Cond).String())
+				if !okGuard {
+					okAll = false
+				}
 			}
+			okGuard = okAll
 			if okGuard && len(notStrict) > 0 {
 				r.bad(key, w.instrPos(rt), "the system-limit condition is returned under "+short(strings.Join(notStrict, " ∧ "), 160)+", which rejects the limit itself: an adjusted exponent of exactly ±MaxExponent is inside the package range (Mul(2E+50000, 3E+50000) must be 6E+100000)")
 			} else if okGuard {
